@@ -608,3 +608,61 @@ Proof. intros H. unfold command_of, params_of, splitn2. rewrite (split_once_fram
 
 Lemma frame_command_bare c : no_space c = true -> command_of c = c /\ params_of c = "".
 Proof. intros H. unfold command_of, params_of, splitn2. rewrite (split_once_no_space c H). split; reflexivity. Qed.
+
+(* ------------------------------------------------------------------ lookups over collections answer once: first match *)
+Lemma plugin_loop_first name c ps1 ps2 :
+  (forall q, In q ps1 -> (fst q =?s name) = false) ->
+  plugin_loop name (ps1 ++ (name, c) :: ps2) = ((if c then [ROk OkPluginCmd] else [RErr EPluginNoCmds]), true).
+Proof.
+  induction ps1 as [|[n h] r IH]; intros H; cbn [app plugin_loop].
+  - rewrite String.eqb_refl. reflexivity.
+  - pose proof (H (n, h) (or_introl eq_refl)) as Hh. cbn [fst] in Hh. rewrite Hh. apply IH. intros q Hq. apply H. right. exact Hq.
+Qed.
+
+Lemma plugin_loop_none name ps :
+  (forall q, In q ps -> (fst q =?s name) = false) -> plugin_loop name ps = ([], false).
+Proof.
+  induction ps as [|[n h] r IH]; intros H; cbn [plugin_loop]; [reflexivity|].
+  pose proof (H (n, h) (or_introl eq_refl)) as Hh. cbn [fst] in Hh. rewrite Hh. apply IH. intros q Hq. apply H. right. exact Hq.
+Qed.
+
+Lemma step_plugin_cmd st t o fc name :
+  command_of t = "plugin_cmd" -> st_fc st = Some fc -> o_json o = JGood name ->
+  (forall c ps1 ps2, fc_plugins fc = (ps1 ++ (name, c) :: ps2)%list -> (forall q, In q ps1 -> (fst q =?s name) = false) ->
+     step st t o = Ok (st, [if c then ROk OkPluginCmd else RErr EPluginNoCmds])) /\
+  ((forall q, In q (fc_plugins fc) -> (fst q =?s name) = false) -> step st t o = Ok (st, [RErr EPluginNotFound])).
+Proof.
+  intros Hc Hfc Hj. unfold step. rewrite Hc. cbn [String.eqb Ascii.eqb Bool.eqb orb andb is_id_command].
+  unfold do_plugin. rewrite Hfc, Hj. split.
+  - intros c ps1 ps2 Hp Hn. rewrite Hp, (plugin_loop_first name c ps1 ps2 Hn). cbn. destruct c; reflexivity.
+  - intros Hn. rewrite (plugin_loop_none name _ Hn). reflexivity.
+Qed.
+
+Lemma position_first id l1 s l2 :
+  s_id s = id -> (forall x, In x l1 -> (s_id x =? id) = false) -> position id (l1 ++ s :: l2) = Some (List.length l1).
+Proof.
+  intros Hs. induction l1 as [|a r IH]; intros H; cbn [app position List.length].
+  - rewrite Hs, N.eqb_refl. reflexivity.
+  - rewrite (H a (or_introl eq_refl)). rewrite IH; [reflexivity|]. intros x Hx. apply H. right. exact Hx.
+Qed.
+
+Lemma remove_at_app {A} (l1 : list A) s l2 : remove_at (l1 ++ s :: l2) (List.length l1) = (l1 ++ l2)%list.
+Proof. induction l1 as [|a r IH]; cbn; [reflexivity|]. rewrite IH. reflexivity. Qed.
+
+(* stop <id> with several streams carrying the id (possible only after the u32 counter wrapped): one reply,
+   exactly the first of them is removed *)
+Lemma step_stop_first st t o fc id l1 s l2 :
+  command_of t = "stop" -> parse_u32 (hd "" (split_on sp (params_of t))) = Some id ->
+  st_fc st = Some fc -> fc_streams fc = (l1 ++ s :: l2)%list -> s_id s = id ->
+  (forall x, In x l1 -> (s_id x =? id) = false) ->
+  step st t o = Ok (with_fc st (set_streams fc (l1 ++ l2)%list), [ROk (OkStop id)]).
+Proof.
+  intros Hc Hp Hfc Hl Hs Hn. unfold step. rewrite Hc. cbn [String.eqb Ascii.eqb Bool.eqb orb andb is_id_command].
+  unfold do_id. destruct (split_on sp (params_of t)) as [|p0 rest]; cbn [hd] in Hp; cbn [nth_chk nth_error bind].
+  - discriminate Hp.
+  - rewrite Hp, Hfc, Hl, (position_first id l1 s l2 Hs Hn).
+    unfold do_id_found. cbn [String.eqb Ascii.eqb Bool.eqb]. unfold remove_chk.
+    assert (L : Nat.ltb (List.length l1) (List.length (l1 ++ s :: l2)) = true).
+    { apply Nat.ltb_lt. rewrite app_length. cbn. lia. }
+    rewrite Hl, L. cbn [bind]. rewrite remove_at_app. reflexivity.
+Qed.
